@@ -555,8 +555,8 @@ impl Arm for C09 {
     }
     fn runs(&self, tier: Tier) -> u64 {
         match tier {
-            Tier::Quick => 400,
-            Tier::Thorough => 12_000,
+            Tier::Quick => 4000,
+            Tier::Thorough => 100_000,
         }
     }
     fn gen(&self, rng: &mut Rng, tier: Tier, _i: u64) -> Value {
